@@ -292,6 +292,19 @@ def check_inputs_unmodified(ctx):
     scope.solve()
     n = 0
     seen = set()
+    # does the engine hand out its own weight array?  (`Dataset(.., self.weights)` / `return self.weights`; a `.copy()` does not)
+    est_ = ctx.repo.nfunc(PI, 'PublicInference.estimate')
+    escapes = False
+    for r_ in [x for x in ast.walk(est_.node) if isinstance(x, ast.Return) and x.value is not None]:
+        for x in ast.walk(r_.value):
+            if isinstance(x, ast.Attribute) and U(x) == 'self.weights':
+                par_ = getattr(x, '_parent', None)
+                copied = isinstance(par_, ast.Attribute) and par_.attr == 'copy' or \
+                    (isinstance(par_, ast.Call) and U(par_.func) in ('np.array', 'np.copy', 'numpy.array', 'numpy.copy'))
+                if not copied:
+                    escapes = True
+    if not escapes:
+        ctx.note('the engine never hands out its own weight array (results get copies): in-place updates of that array reach no earlier result')
     for (rel, q), summ in scope.summaries.items():
         if rel != PI or q not in ('entropic_mirror_descent', 'PublicInference.estimate', 'estimate_total'):
             continue
@@ -303,6 +316,9 @@ def check_inputs_unmodified(ctx):
             seen.add(k)
             n += 1
             bad = sorted(t for t in site.origins if t.startswith(('S:', 'P:', 'Pe:')) and not t.endswith(':self'))
+            if not escapes:
+                # only the engine itself holds the array: writes through `self.weights` / the weight vector handed to the optimiser are its own business
+                bad = [t for t in bad if t not in ('S:weights', 'P:x0') and not (q == 'entropic_mirror_descent' and t == 'P:' + fi.params[1])]
             ctx.ob('weights-unshared', fi, site.node, not bad,
                    '%s acts on %s' % (site.what, 'arrays of this call' if not bad else
                                       '%s: the weight vector handed in is the array inside every Dataset returned earlier, which is rewritten' % ', '.join(bad)))
